@@ -138,7 +138,7 @@ impl Property for C28 {
     vec!["the copy is taken while no writer is open (as the README's backup advice implies); a queued, synced operation in wal.log belongs to the copy as well".into()]
   }
   fn plan(tier: Tier) -> Plan {
-    Plan { workers: 16, cases_per_worker: tier.pick(150, 4000) }
+    Plan { workers: 16, cases_per_worker: tier.pick(150, 16000) }
   }
   fn shrink_iters() -> u32 {
     600
